@@ -178,6 +178,13 @@ SCENARIOS = {
                      calls=[(1, 0, 'echo'), (1, 0, 'add')]),
     '3c-falsy': dict(n=3, exporters={0: 'org.ex.A', 2: 'org.ex.C'},
                      falsy=True, calls=[(1, 0, 'echo'), (1, 2, 'swap')]),
+    # comings and goings on the bus: a peer that connected first has left and
+    # one / two newcomers have arrived when the calls are made
+    '2c-comings1': dict(n=2, exporters={0: 'org.ex.A'}, comings=1,
+                        calls=[(1, 0, 'echo'), (1, 0, 'who')]),
+    '3c-comings2': dict(n=3, exporters={0: 'org.ex.A', 2: 'org.ex.C'},
+                        comings=2,
+                        calls=[(1, 0, 'echo'), (1, 2, 'add'), (2, 0, 'who')]),
     '2c-reexport': dict(n=2, exporters={0: 'org.ex.A'}, reexport=True,
                         calls=[(1, 0, 'echo'), (1, 0, 'add')]),
     '4c': dict(n=4, exporters={0: 'org.ex.A', 3: 'org.ex.D'},
@@ -206,6 +213,20 @@ class System:
         bf.protocol = bus.BusProtocol
         bf.bus = self.bus
         self.n = sc['n']
+        self.early = None
+        if sc.get('comings'):
+            # another peer connected before everybody else (it will leave
+            # again before the measured calls, and a newcomer will arrive)
+            from mcx import refcodec as R
+            ep = bf.buildProtocol(None)
+            et = fakes.FakeTransport()
+            ep.makeConnection(et)
+            ep.dataReceived(b'\0AUTH ANONYMOUS\r\nBEGIN\r\n')
+            ep.dataReceived(R.encode_message(
+                1, 1, {'path': '/org/freedesktop/DBus', 'member': 'Hello',
+                       'interface': 'org.freedesktop.DBus',
+                       'destination': 'org.freedesktop.DBus'}))
+            self.early = (ep, et)
         self.cprotos, self.sprotos, self.ct, self.st = [], [], [], []
         self.conn_results = []
         for i in range(self.n):
@@ -268,6 +289,7 @@ class System:
             self.pump()
             self.raw_peer = (rp, rt)
         self.proxies = {}
+        self._bf = bf
         for (caller, exporter, key) in sc['calls']:
             if (caller, exporter) in self.proxies:
                 continue
@@ -311,6 +333,24 @@ class System:
                 sc['exporters'][exporter], '/svc', ifc).addBoth(got.append)
             self.pump()
             self.proxies[(caller, exporter)] = got
+        if self.early is not None:
+            # the early peer leaves, a newcomer connects and says Hello
+            from mcx import refcodec as R
+            ep, et = self.early
+            et.lost = True
+            ep.connectionLost(fakes.lost_reason())
+            for k in range(sc['comings']):
+                np_ = self._bf.buildProtocol(None)
+                nt = fakes.FakeTransport()
+                np_.makeConnection(nt)
+                np_.dataReceived(b'\0AUTH ANONYMOUS\r\nBEGIN\r\n')
+                np_.dataReceived(R.encode_message(
+                    1, 1, {'path': '/org/freedesktop/DBus',
+                           'member': 'Hello',
+                           'interface': 'org.freedesktop.DBus',
+                           'destination': 'org.freedesktop.DBus'}))
+                self.newcomers = getattr(self, 'newcomers', []) + [(np_, nt)]
+            self.pump()
         self.results = []
 
     def queues(self):
@@ -580,6 +620,8 @@ def run(ctx):
                  ('3c-falsy', 'introspect', 0)]
         plan += [('2c-reexport', 'explicit', 0),
                  ('2c-reexport', 'introspect', 0)]
+        plan += [('2c-comings1', 'explicit', 0),
+                 ('3c-comings2', 'explicit', 0)]
         limit = 5000
     else:
         plan = [('2c-2calls', 'explicit', 2), ('2c-2calls', 'introspect', 1),
@@ -602,6 +644,8 @@ def run(ctx):
                  ('3c-falsy', 'introspect', 0), ('3c-falsy', 'explicit', 0)]
         plan += [('2c-reexport', 'explicit', 1),
                  ('2c-reexport', 'introspect', 1)]
+        plan += [('2c-comings1', 'explicit', 1),
+                 ('3c-comings2', 'introspect', 0)]
         limit = 60000
     for scn, mode, dev in plan:
         dfs.explore(ctx, make_runner,
